@@ -120,6 +120,24 @@ class Oracle:
             if t[4] and t[3] in ('enter', 'resumed'):
                 w.violate('b:ran-while-paused', features(w, phase=t[3]), f'{t[0]} {t[3]} while paused')
                 break
+        # (f) "a pause takes effect at the next step boundary": no step is entered while a pause request stands (the last
+        #     accepted request among pause / play / withdrawal is a pause).  A pause asked from a listener callback during a
+        #     transition arrives while the state being entered is the current step: that one may still start.
+        for j, t in enumerate(w.trace):
+            if t[3] != 'enter':
+                continue
+            last = None
+            for rec in w.calls:
+                if rec['ntrace'] > j:
+                    break
+                if rec['op'] in ('pause', 'play') and rec['raised'] is None and rec['live']:
+                    last = rec
+                elif rec['op'] == 'unask' and rec.get('target') == 'pause':
+                    last = None
+            if last is not None and last['op'] == 'pause' and not last.get('withdrawn') and last['ret'] != ('value', False) \
+                    and not last['origin'].startswith('listener') and 'play' not in last['nested']:
+                w.violate('f:pause-ignored', features(w, last), f'{t[0]} entered although the last request was a pause')
+                break
         # (d) same steps, outputs and outcome as the uninterrupted run
         ref = reference(self.unit)
         mine = outcome_of(w)
